@@ -25,6 +25,9 @@ func vh_C14_L1_close_after_data_and_reuse() {
 		_, werr := s.WriteSCTP(m, PayloadTypeWebRTCString)
 		vassert(werr == nil, "write accepted")
 	}
+	if !unordered && vPick(2) == 1 {
+		s.SetReliabilityParams(true, ReliabilityTypeReliable, 0) // the stream is switched to unordered after the ordered writes
+	}
 	vassert(s.Close() == nil, "close accepted")
 	_, werr := s.WriteSCTP([]byte{1}, PayloadTypeWebRTCString)
 	vassert(werr != nil, "write after close is rejected")
@@ -180,5 +183,28 @@ func vh_C14_L3_two_resets_one_lost() {
 	_, p1 := b.streams[1]
 	_, p2 := b.streams[2]
 	vassert(!p1 && !p2, "both streams are reset at the peer")
+	vcover("end")
+}
+
+// C14.L2b: a deferred reset is performed when the request is received again after the
+// cumulative TSN has caught up through a forward-TSN (which ends without a pop).
+func vh_C14_L2_deferred_reset_reevaluated() {
+	a, _ := vNewAssoc()
+	a.useForwardTSN = true
+	cum := a.peerLastTSN()
+	vassert(vDeliver(a, vDataChunk(a, cum+1, 4, false, 1)) == nil, "DATA ok")
+	cum = a.peerLastTSN()
+	s4 := a.streams[4]
+	req := &paramOutgoingResetRequest{reconfigRequestSequenceNumber: nondetU32(), senderLastTSN: cum + 2, streamIdentifiers: []uint16{4}}
+	vassert(vDeliver(a, &chunkReconfig{paramA: req}) == nil, "RECONFIG ok")
+	vassert(s4.readErr == nil && len(a.reconfigRequests) == 1, "deferred: the data up to the sender's last TSN has not arrived")
+	// the missing TSNs are skipped by the sender
+	vassert(vDeliver(a, &chunkForwardTSN{newCumulativeTSN: cum + 2}) == nil, "FORWARD-TSN ok")
+	vassert(a.peerLastTSN() == cum+2, "cumulative TSN caught up")
+	// the sender's reconfig timer retransmits the request
+	vassert(vDeliver(a, &chunkReconfig{paramA: req}) == nil, "RECONFIG ok")
+	vassert(s4.readErr == io.EOF, "the retransmitted request is re-evaluated and the reset performed")
+	_, still := a.streams[4]
+	vassert(!still && len(a.reconfigRequests) == 0, "stream removed, request forgotten")
 	vcover("end")
 }
